@@ -57,7 +57,7 @@ Definition fn_to_upper := map_strings (fun p s =>
 Definition fn_to_lower := map_strings (fun p s =>
   if is_ascii_str s then Done (Some (PString p (str_map ascii_lower s))) else Unknown).
 
-(* substring: byte offsets; Rust slicing panics unless both ends are char boundaries *)
+(* substring: byte offsets; both ends must be char boundaries *)
 Fixpoint str_skip (n : nat) (s : string) : string :=
   match n, s with
   | O, _ => s
@@ -81,7 +81,7 @@ Definition fn_substring (args : list qres) (from to : nat) : outcome (list (opti
     if negb (str_is_empty s) && Nat.ltb from to && Nat.leb from len && Nat.leb to len then
       if is_char_boundary s from && is_char_boundary s to then
         Done (Some (PString p (str_take (to - from) (str_skip from s))))
-      else Panic P_substring_slice
+      else Done None       (* offsets inside a multi-byte character: skipped (fix b4895d1) *)
     else Done None) args.
 
 (* `*n as u16` on i64: wraps modulo 2^16 *)
@@ -89,7 +89,7 @@ Definition i64_as_u16 (z : Z) : nat := Z.to_nat (z mod 65536).
 
 Definition first_arg_value (l : list qres) : outcome (option pv) :=
   match l with
-  | [] => Panic P_fn_arg_index
+  | [] => Done None        (* args[n].first() == None: the "requires the ... argument" error arm (fix a4140bd) *)
   | (QResolved v | QLiteral v) :: _ => Done (Some v)
   | QUnResolved _ :: _ => Done None
   end.
